@@ -2,6 +2,7 @@ import ActixModel.Proofs.PanicChunk
 import ActixModel.Proofs.PanicWs
 import ActixModel.Proofs.PanicPath
 import ActixModel.Proofs.PanicRange
+import ActixModel.Proofs.PanicCD
 /-
 C19 — no peer-controlled input makes the library panic.
 
@@ -229,5 +230,26 @@ theorem C19_files_range_bounds (header : List Nat) (size f l sz len : Nat) (hpos
     (hs : size ≤ u64Max) (h : Range.fileRange header size = .ok (.partial_ f l sz len)) :
     f ≤ l ∧ l < size ∧ sz = size ∧ l + 1 = f + len :=
   Range.fileRange_bounds header size f l sz len hpos hs h
+
+/-! ## 5. `ContentDisposition::from_raw` (`content_disposition.rs`): byte-index slicing of a `String` -/
+
+/-- **C19_no_panic_content_disposition**: for *every* byte string. The model's `strSplitAt` /
+`strFrom` panic exactly when `str::is_char_boundary` is false; the proof goes through the fact
+that valid UTF-8 (checked by `String::from_utf8` first) never has a continuation byte after an
+ASCII byte, and that every slicing index is at or right after `;`, `=` or `"`. Includes
+termination of the parameter loop (fuel `len + 1`: every parameter consumes ≥ 1 byte). -/
+theorem C19_no_panic_content_disposition (hv : List Nat) : NoPanic (CD.fromRaw hv) :=
+  CD.fromRaw_noPanic hv
+
+/-- **C19_utf8_ascii_follow**: the lemma about UTF-8 that carries it. -/
+theorem C19_utf8_ascii_follow (s : List Nat) (h : CD.utf8Valid s = true) (i b c : Nat)
+    (hb : s[i]? = some b) (hc : s[i + 1]? = some c) (hlt : b < 128) : CD.isCont c = false :=
+  CD.utf8Valid_AF s h i b c hb hc hlt
+
+/-- the panic condition is live: the same parameter code on a byte string that is *not* valid
+UTF-8 (a continuation byte right after the closing quote) does slice off a char boundary — so
+the `from_utf8` check at the top of `from_raw` is what the theorem rests on -/
+theorem witness_cd_slice_off_boundary_without_utf8_check :
+    (CD.oneParam [97, 61, 34, 120, 34, 128]).isPanic = true := by decide
 
 end ActixModel.Panic.C19
